@@ -192,7 +192,7 @@ pub fn array_chain() {
     for i in 0..n {
         let c = sym::choose(k + 1);
         let absent = c == k;
-        let o = if absent { ORDERS[0] } else { ORDERS[c] };
+        let o: &[&str] = if absent { &[] } else { ORDERS[c] };
         let mut d = Map::new();
         if !absent {
             d.insert("items♭".to_string(), elems(o));
